@@ -251,6 +251,35 @@ func (e *encExec) Do(o *Out, f []string) string {
 	case "comp":
 		p, s := unhx(f[1]), unhx(f[2])
 		c := statedb.VerifEncodeNonUniqueKey(p, s)
+		{
+			// the same pair with both keys cut from ONE buffer that has room behind them (several keys
+			// of a KeySet made from one buffer): the encoder must not write into its inputs' buffer and
+			// the composite key must not change when the caller goes on using it
+			buf := make([]byte, 0, len(p)+len(s)+64)
+			buf = append(buf, s...)
+			s2 := buf[:len(s)]
+			buf = append(buf, p...)
+			p2 := buf[len(s) : len(s)+len(p)]
+			full := buf[:cap(buf)]
+			for i := len(s) + len(p); i < len(full); i++ {
+				full[i] = 0x5a
+			}
+			before := append([]byte{}, full...)
+			c2 := statedb.VerifEncodeNonUniqueKey(p2, s2)
+			if !bytes.Equal(full, before) {
+				o.Fail("C18", "composite-encoder-wrote-to-input", nil, fmt.Sprintf("composite(%s,%s) changed the buffer its keys were cut from: %s -> %s", hx(p), hx(s), hx(before), hx(full)))
+			}
+			if !bytes.Equal(c2, c) {
+				o.Fail("C18", "composite-equal-values-different-keys", nil, fmt.Sprintf("composite(%s,%s) gives %s from exact-capacity keys and %s from keys with spare capacity", hx(p), hx(s), hx(c), hx(c2)))
+			}
+			keep := append([]byte{}, c2...)
+			for i := range full {
+				full[i] = 0xc3
+			}
+			if !bytes.Equal(c2, keep) {
+				o.Fail("C18", "composite-key-aliases-input", nil, fmt.Sprintf("the key returned by composite(%s,%s) changed when the caller reused the buffer the keys were cut from", hx(p), hx(s)))
+			}
+		}
 		pl, sl, ep, es := statedb.VerifNonUniqueKeySplit(c)
 		encP, encS := statedb.VerifEncodeNonUniqueBytes(p), statedb.VerifEncodeNonUniqueBytes(s)
 		if !bytes.Equal(ep, encP) || !bytes.Equal(es, encS) || pl != len(encP) || sl != len(encS) {
